@@ -17,7 +17,7 @@ func init() {
 	Registry["C07"] = Spec{
 		Fn:          c07,
 		Level:       "fault_enumeration",
-		Rule:        "encodings = library-encoded blocks of every catalogue column and of random compositions (as C01) and every protocol message at threshold-neighbour revisions (as C17); fault points = every cut position 0..len-1 for encodings <= 1 KiB (quick) / 4 KiB (thorough), otherwise all positions of the first and last 200/512 bytes plus 200/512 random cuts; blocks with the tested column first, last or alone, and blocks that end inside a 40 KiB..1 MiB string; plain stream and one compressed frame per method (None, LZ4, LZ4HC, ZSTD; cuts inside checksum, header, body); typed and inferred (Results.Auto) decoding. A violation is a proper prefix whose decode returns nil. Non-trivial = encoding of >= 2 bytes; distinct = (encoding, transport, decoder, cut)",
+		Rule:        "encodings = library-encoded blocks of every catalogue column and of random compositions (as C01) and every protocol message at threshold-neighbour revisions (as C17); fault points = every cut position 0..len-1 for encodings <= 1 KiB (quick) / 4 KiB (thorough), otherwise all positions of the first and last 200/512 bytes plus 200/512 random cuts; blocks with the tested column first, last or alone, and blocks that end inside a 40 KiB..1 MiB string; plain stream, one compressed frame per method and the block split over 2..4 frames of mixed methods (None, LZ4, LZ4HC, ZSTD; cuts inside checksum, header, body); typed and inferred (Results.Auto) decoding. A violation is a proper prefix whose decode returns nil. Non-trivial = encoding of >= 2 bytes; distinct = (encoding, transport, decoder, cut)",
 		Assumptions: []string{"the complete encoding decodes and consumes exactly its length (checked here first; otherwise the case is skipped and left to C01/C17)"},
 		MinDistinct: 2000,
 	}
@@ -119,6 +119,30 @@ func c07(r *core.Run) {
 		w := compress.NewWriter(m.Level, m.M)
 		if err := w.Compress(bc.Bytes); err == nil {
 			trs = append(trs, transport{"compressed:" + m.Name, append([]byte(nil), w.Data...), true})
+		}
+		// the same block carried by several frames (a server splits large blocks; each piece is a
+		// frame of its own, possibly of another method): cuts at and after the first frame boundary
+		if len(bc.Bytes) >= 4 {
+			prng := r.Rand(ci, "multiframe")
+			np := 2 + prng.Intn(3)
+			var multi []byte
+			at := 0
+			for i := 0; i < np; i++ {
+				end := len(bc.Bytes)
+				if i < np-1 {
+					end = at + 1 + prng.Intn(max(1, (len(bc.Bytes)-at)/2))
+				}
+				cw := compress.NewWriter(0, []compress.Method{compress.None, compress.LZ4, compress.ZSTD}[prng.Intn(3)])
+				if cw.Compress(bc.Bytes[at:end]) != nil {
+					multi = nil
+					break
+				}
+				multi = append(multi, cw.Data...)
+				at = end
+			}
+			if multi != nil {
+				trs = append(trs, transport{fmt.Sprintf("compressed:%d-frames", np), multi, true})
+			}
 		}
 		for _, tr := range trs {
 			cuts := cutPositions(r, ci, len(tr.stream))
